@@ -42,9 +42,10 @@ InputClauses ==
       \* the parser of the single-file grammar written from the real productions (which GrammarClauses proves equal to Flatten) behaves
       \* the same on this input: a disagreement with the chart is then the parser's own (GLR findings D1/D2, property C01), not the imports'
       sameAsSingleFile == GrammarClauses = {} /\ In.hasflat /\ In.okflat = In.ok
-  IN  (IF In.ok # sentence /\ ~sameAsSingleFile THEN {"C20:language-differs-from-flattened-grammar"} ELSE {})
+      \* (a `glued` input is written without layout between two tokens: not a token sequence of the chart; parser against parser only)
+  IN  (IF ~In.glued /\ In.ok # sentence /\ ~sameAsSingleFile THEN {"C20:language-differs-from-flattened-grammar"} ELSE {})
  \cup (IF In.hasflat /\ In.okflat # In.ok THEN {"C20:language-differs-from-single-file-parser"} ELSE {})
- \cup (IF In.ok /\ In.complete /\ \E i \in DOMAIN In.trees : In.results[i] # Eval(C.prods, C.akind, C.assign, {}, In.trees[i])
+ \cup (IF ~In.glued /\ In.ok /\ In.complete /\ \E i \in DOMAIN In.trees : In.results[i] # Eval(C.prods, C.akind, C.assign, {}, In.trees[i])
        THEN {"C20:result-differs-from-flattened-grammar"} ELSE {})
  \cup (IF In.raised # "" THEN {"C20:parse-raises"} ELSE {})
 Init == cid \in DOMAIN Cases /\ iid = 0 /\ phase = 0
